@@ -44,6 +44,92 @@ T_ATTR_DEPRECATED = {'Certificate Identifier': (1, 1), 'Certificate Subject': (1
                      'Operation Policy Name': (2, 0)}
 
 
+# KMIP specification: version-conditional message fields (class, tag) -> ('min', V) present iff version >= V | ('before', V) present iff version < V
+_TA = ('before', 'KMIP_2_0')
+_AT = ('min', 'KMIP_2_0')
+T_FIELDVER = {
+    ('ResponseHeader', 'SERVER_HASHED_PASSWORD'): _AT, ('RequestBatchItem', 'EPHEMERAL'): _AT,
+    ('CreateRequestPayload', 'TEMPLATE_ATTRIBUTE'): _TA, ('CreateRequestPayload', 'ATTRIBUTES'): _AT, ('CreateRequestPayload', 'PROTECTION_STORAGE_MASKS'): _AT,
+    ('CreateResponsePayload', 'TEMPLATE_ATTRIBUTE'): _TA,
+    ('CreateKeyPairRequestPayload', 'COMMON_TEMPLATE_ATTRIBUTE'): _TA, ('CreateKeyPairRequestPayload', 'COMMON_ATTRIBUTES'): _AT,
+    ('CreateKeyPairRequestPayload', 'PRIVATE_KEY_TEMPLATE_ATTRIBUTE'): _TA, ('CreateKeyPairRequestPayload', 'PRIVATE_KEY_ATTRIBUTES'): _AT,
+    ('CreateKeyPairRequestPayload', 'PUBLIC_KEY_TEMPLATE_ATTRIBUTE'): _TA, ('CreateKeyPairRequestPayload', 'PUBLIC_KEY_ATTRIBUTES'): _AT,
+    ('CreateKeyPairRequestPayload', 'COMMON_PROTECTION_STORAGE_MASKS'): _AT, ('CreateKeyPairRequestPayload', 'PRIVATE_PROTECTION_STORAGE_MASKS'): _AT,
+    ('CreateKeyPairRequestPayload', 'PUBLIC_PROTECTION_STORAGE_MASKS'): _AT,
+    ('CreateKeyPairResponsePayload', 'PRIVATE_KEY_TEMPLATE_ATTRIBUTE'): _TA, ('CreateKeyPairResponsePayload', 'PUBLIC_KEY_TEMPLATE_ATTRIBUTE'): _TA,
+    ('DecryptRequestPayload', 'AUTHENTICATED_ENCRYPTION_ADDITIONAL_DATA'): ('min', 'KMIP_1_4'), ('DecryptRequestPayload', 'AUTHENTICATED_ENCRYPTION_TAG'): ('min', 'KMIP_1_4'),
+    ('EncryptRequestPayload', 'AUTHENTICATED_ENCRYPTION_ADDITIONAL_DATA'): ('min', 'KMIP_1_4'), ('EncryptResponsePayload', 'AUTHENTICATED_ENCRYPTION_TAG'): ('min', 'KMIP_1_4'),
+    ('DeleteAttributeRequestPayload', 'ATTRIBUTE_NAME'): _TA, ('DeleteAttributeRequestPayload', 'ATTRIBUTE_INDEX'): _TA,
+    ('DeleteAttributeRequestPayload', 'CURRENT_ATTRIBUTE'): _AT, ('DeleteAttributeRequestPayload', 'ATTRIBUTE_REFERENCE'): _AT,
+    ('DeleteAttributeResponsePayload', 'ATTRIBUTE'): _TA,
+    ('DeriveKeyRequestPayload', 'TEMPLATE_ATTRIBUTE'): _TA, ('DeriveKeyRequestPayload', 'ATTRIBUTES'): _AT, ('DeriveKeyResponsePayload', 'TEMPLATE_ATTRIBUTE'): _TA,
+    ('GetAttributeListResponsePayload', 'ATTRIBUTE_NAME'): _TA, ('GetAttributeListResponsePayload', 'ATTRIBUTE_REFERENCE'): _AT,
+    ('GetAttributesRequestPayload', 'ATTRIBUTE_NAME'): _TA, ('GetAttributesRequestPayload', 'ATTRIBUTE_REFERENCE'): _AT,
+    ('GetAttributesResponsePayload', 'ATTRIBUTE'): _TA, ('GetAttributesResponsePayload', 'ATTRIBUTES'): _AT,
+    ('LocateRequestPayload', 'ATTRIBUTE'): _TA, ('LocateRequestPayload', 'ATTRIBUTES'): _AT,
+    ('ModifyAttributeRequestPayload', 'ATTRIBUTE'): _TA, ('ModifyAttributeRequestPayload', 'CURRENT_ATTRIBUTE'): _AT, ('ModifyAttributeRequestPayload', 'NEW_ATTRIBUTE'): _AT,
+    ('ModifyAttributeResponsePayload', 'ATTRIBUTE'): _TA,
+    ('QueryResponsePayload', 'EXTENSION_INFORMATION'): ('min', 'KMIP_1_1'), ('QueryResponsePayload', 'ATTESTATION_TYPE'): ('min', 'KMIP_1_2'),
+    ('QueryResponsePayload', 'RNG_PARAMETERS'): ('min', 'KMIP_1_3'), ('QueryResponsePayload', 'PROFILE_INFORMATION'): ('min', 'KMIP_1_3'),
+    ('QueryResponsePayload', 'VALIDATION_INFORMATION'): ('min', 'KMIP_1_3'), ('QueryResponsePayload', 'CAPABILITY_INFORMATION'): ('min', 'KMIP_1_3'),
+    ('QueryResponsePayload', 'CLIENT_REGISTRATION_METHOD'): ('min', 'KMIP_1_3'), ('QueryResponsePayload', 'DEFAULTS_INFORMATION'): _AT,
+    ('QueryResponsePayload', 'PROTECTION_STORAGE_MASK'): _AT,
+    ('RegisterRequestPayload', 'TEMPLATE_ATTRIBUTE'): _TA, ('RegisterRequestPayload', 'ATTRIBUTES'): _AT, ('RegisterRequestPayload', 'PROTECTION_STORAGE_MASKS'): _AT,
+    ('RegisterResponsePayload', 'TEMPLATE_ATTRIBUTE'): _TA,
+    ('CapabilityInformation', 'BATCH_UNDO_CAPABILITY'): ('min', 'KMIP_1_4'), ('CapabilityInformation', 'BATCH_CONTINUE_CAPABILITY'): ('min', 'KMIP_1_4'),
+}
+# structures that exist only from a given version on
+T_CLASSVER = {'SetAttributeRequestPayload': 'KMIP_2_0', 'SetAttributeResponsePayload': 'KMIP_2_0', 'CurrentAttribute': 'KMIP_2_0', 'NewAttribute': 'KMIP_2_0',
+              'AttributeReference': 'KMIP_2_0', 'Attributes': 'KMIP_2_0', 'ObjectDefaults': 'KMIP_2_0', 'DefaultsInformation': 'KMIP_2_0', 'ProtectionStorageMasks': 'KMIP_2_0',
+              'RNGParameters': 'KMIP_1_3', 'ProfileInformation': 'KMIP_1_3', 'ValidationInformation': 'KMIP_1_3', 'CapabilityInformation': 'KMIP_1_3'}
+
+
+def check_field_gates(ctx):
+    """C16.R6: version guards of codec fields (both reader and writer) equal the specification table."""
+    from ..ttlv import Schema, VERSIONS, eval_guard
+    sch = Schema(ctx.src)
+    ctx.rule('C16.R6', 'for every structure class, reader and writer admit each version-conditional field exactly under the versions the KMIP specification defines it for; '
+                       'structures introduced in a later version refuse earlier versions on both sides')
+    seen = set()
+    n_cls = 0
+    for ref, rf, wf in sch.codec_classes():
+        cname = ref[1]
+        R = sch.extract(ref, rf, 'read')
+        W = sch.extract(ref, wf, 'write')
+        for side, X, fn in (('reader', R, rf), ('writer', W, wf)):
+            site = '%s:%s %s.%s' % (ref[0], fn.lineno, cname, fn.name)
+            want_cls = T_CLASSVER.get(cname)
+            have = [v for v in VERSIONS if X.defined_under(v)]
+            exp = [v for v in VERSIONS if want_cls is None or VERSIONS.index(v) >= VERSIONS.index(want_cls)]
+            if want_cls is not None or have != VERSIONS:
+                n_cls += 1
+                ctx.check(have == exp, 'C16.R6', '%s|%s|class-versions' % (cname, side), site, '%s defined for %s' % (side, [x[5:].replace('_', '.') for x in have]),
+                          'the %s of %s is available under versions %s; the specification defines the structure for %s' % (side, cname, [x[5:] for x in have], [x[5:] for x in exp]))
+            per_tag = {}
+            for e in X.events:
+                key = e['tag'] or e['ident'].upper()
+                vs = frozenset(v for v in have if eval_guard(e['guards'], v))
+                per_tag.setdefault(key, set()).update(vs)
+            for key, vs in sorted(per_tag.items()):
+                spec = T_FIELDVER.get((cname, key))
+                if spec is None:
+                    # ungated (or only class-gated) field
+                    if vs != set(have):
+                        ctx.fail('C16.R6', '%s|%s|%s|unreviewed-gate' % (cname, side, key), site, 'field %s is version-gated (%s) but has no entry in the specification table' % (key, sorted(x[5:] for x in vs)))
+                    continue
+                seen.add((cname, key, side))
+                kind, V = spec
+                exp_f = set(v for v in have if (VERSIONS.index(v) >= VERSIONS.index(V)) == (kind == 'min'))
+                ctx.check(vs == exp_f, 'C16.R6', '%s|%s|%s' % (cname, side, key), site, '%s %s %s under %s' % (side, 'accepts' if side == 'reader' else 'emits', key, sorted(x[5:].replace('_', '.') for x in vs)),
+                          'the %s of %s handles %s under versions %s; the specification defines it for %s' % (side, cname, key, sorted(x[5:] for x in vs), sorted(x[5:] for x in exp_f)))
+    for (cname, key) in T_FIELDVER:
+        for side in ('reader', 'writer'):
+            if (cname, key, side) not in seen:
+                raise AnalysisError('anchor vanished: version-conditional field %s.%s not found on the %s side' % (cname, key, side))
+    ctx.count('version_gated_class_sides', n_cls, 20)
+    ctx.count('version_gated_fields', len(T_FIELDVER), 50)
+
+
 def vtuple(s):
     a, b = s.split('.')
     return (int(a), int(b))
@@ -535,5 +621,6 @@ def run(ctx):
         fv = tuple(int(x) for x in vname.split('_')[1:])
         ctx.check(fv == want, 'C16.R8', 'is_attribute|%s' % tag, '%s is_attribute' % ENUMS, '%s first accepted under %s' % (tag, vname),
                   'enums.is_attribute first accepts %s under %s; the specification table says %s' % (tag, fv, want))
-    ctx.not_decided += ['ProtocolVersion comparison operators (value-level)', 'version-conditional payload fields are decided by C16.R6 when the TTLV extractor is available']
+    check_field_gates(ctx)
+    ctx.not_decided += ['ProtocolVersion comparison operators (value-level)']
     ctx.assumptions += ['T_OPMIN / T_ATTR_ADDED / T_ATTR_DEPRECATED transcribe the KMIP 1.0-2.0 specifications']
